@@ -111,6 +111,8 @@ inline double inexactWeight(int a) {
     case 1: return 0.3;
     case 2: return 7000.3;
     case 3: return 0.7;
+    case 4: return 0.1 + 0.2; // one ulp above inexactWeight(1)
+    case 5: return 1e20;      // swamps every other weight in a running sum
     default: return 1.1 * a;
     }
 }
@@ -123,22 +125,25 @@ template <class G> struct Lab {
         else if constexpr (I::kind == KindTag::Weighted)
             return variant ? inexactWeight(a) : (L)a;
         else
-            return (L)a;
+            return variant ? (L)((unsigned long long)a << 30) : (L)a; // multigraphs, variant 1: units of 2^30
     }
     static int dec(const L &v, int variant = 0) {
         if constexpr (I::kind == KindTag::Labeled)
             return Codec<L>::dec(v);
-        else if constexpr (I::kind == KindTag::Multi)
+        else if constexpr (I::kind == KindTag::Multi) {
+            if (variant)
+                return (v & ((1u << 30) - 1)) ? UNKNOWN_L : (int)(v >> 30);
             return v > 1000000u ? UNKNOWN_L : (int)v;
+        }
         else {
             if (variant) {
-                for (int a = -1; a <= 3; ++a)
+                for (int a = -1; a <= 5; ++a)
                     if (inexactWeight(a) == v)
                         return a;
                 return UNKNOWN_L;
             }
             double r = std::nearbyint(v);
-            return (r == v && std::fabs(v) < 1e6) ? (int)r : UNKNOWN_L;
+            return (r == v && std::fabs(v) < 1e9) ? (int)r : UNKNOWN_L;
         }
     }
 };
@@ -159,16 +164,22 @@ template <class G> class Obj : public IObj {
   public:
     G g;
     int variant = 0; // weighted classes: 1 = inexact weights
+    bool sawHuge = false; // a weight of 1e20 went through this object's running total
     Obj() : g(0) {}
     explicit Obj(const G &o, int v = 0) : g(o), variant(v) {}
 
     std::unique_ptr<IObj> clone() const override {
-        return std::unique_ptr<IObj>(new Obj<G>(g, variant)); // copy constructor of the class
+        auto *c = new Obj<G>(g, variant); // copy constructor of the class
+        c->sawHuge = sawHuge;
+        return std::unique_ptr<IObj>(c);
     }
-    std::string family() const override { return I::name() + (variant ? "[inexact weights]" : ""); }
+    std::string family() const override { return I::name() + (variant ? (I::kind == KindTag::Multi ? "[multiplicities in units of 2^30]" : "[inexact weights]") : ""); }
     bool equals(const IObj &o) const override { return g == static_cast<const Obj<G> &>(o).g; }
     bool differs(const IObj &o) const override { return g != static_cast<const Obj<G> &>(o).g; }
-    void assignFrom(const IObj &o) override { g = static_cast<const Obj<G> &>(o).g; }
+    void assignFrom(const IObj &o) override {
+        g = static_cast<const Obj<G> &>(o).g;
+        sawHuge = static_cast<const Obj<G> &>(o).sawHuge;
+    }
     std::string text() const override {
         std::ostringstream os;
         os << g;
@@ -177,6 +188,8 @@ template <class G> class Obj : public IObj {
 
     std::string apply(const json &c) override {
         const std::string op = c.at("op");
+        if (variant && c.contains("w") && c.at("w").get<int>() == 5)
+            sawHuge = true;
         auto I_ = [&] { return vtx(c.at("i")); };
         auto J_ = [&] { return vtx(c.at("j")); };
         auto V_ = [&] { return vtx(c.at("v")); };
@@ -192,7 +205,7 @@ template <class G> class Obj : public IObj {
                 g.removeSelfLoops();
             else if (op == "removeVertexFromEdgeList")
                 g.removeVertexFromEdgeList(V_());
-            else if (op == "removeEdge")
+            else if (op == "removeEdge" && !(I::kind == KindTag::Multi && variant))
                 g.removeEdge(I_(), J_());
             else if (op == "hasEdge")
                 (void)g.hasEdge(I_(), J_());
@@ -235,24 +248,34 @@ template <class G> class Obj : public IObj {
                 } else
                     throw std::logic_error("unknown op " + op);
             } else if constexpr (I::kind == KindTag::Multi) {
-                if (op == "addEdge")
+                // variant 1: every multiplicity is a multiple of 2^30, so sums and differences
+                // cross 2^31 and 2^32; addEdge/removeEdge (implicit multiplicity 1) become one unit
+                auto K_ = [&] { return Lab<G>::enc(c.at("k").get<int>(), variant); };
+                if (op == "addEdge" && !variant)
                     g.addEdge(I_(), J_(), F_());
+                else if (op == "addEdge")
+                    g.addMultiedge(I_(), J_(), Lab<G>::enc(1, variant), F_());
+                else if (op == "removeEdge" && variant)
+                    g.removeMultiedge(I_(), J_(), Lab<G>::enc(1, variant));
                 else if (op == "addMultiedge")
-                    g.addMultiedge(I_(), J_(), c.at("k").get<unsigned>(), F_());
+                    g.addMultiedge(I_(), J_(), K_(), F_());
                 else if (op == "removeMultiedge")
-                    g.removeMultiedge(I_(), J_(), c.at("k").get<unsigned>());
+                    g.removeMultiedge(I_(), J_(), K_());
                 else if (op == "setEdgeMultiplicity")
-                    g.setEdgeMultiplicity(I_(), J_(), c.at("k").get<unsigned>());
+                    g.setEdgeMultiplicity(I_(), J_(), K_());
                 else if (op == "getEdgeMultiplicity")
                     (void)g.getEdgeMultiplicity(I_(), J_());
                 else if (op == "addReciprocalEdge") {
-                    if constexpr (I::directed)
-                        g.addReciprocalEdge(I_(), J_(), F_());
-                    else
+                    if constexpr (I::directed) {
+                        if (variant)
+                            g.addReciprocalMultiedge(I_(), J_(), Lab<G>::enc(1, variant), F_());
+                        else
+                            g.addReciprocalEdge(I_(), J_(), F_());
+                    } else
                         throw std::logic_error("no addReciprocalEdge");
                 } else if (op == "addReciprocalMultiedge") {
                     if constexpr (I::directed)
-                        g.addReciprocalMultiedge(I_(), J_(), c.at("k").get<unsigned>(), F_());
+                        g.addReciprocalMultiedge(I_(), J_(), K_(), F_());
                     else
                         throw std::logic_error("no addReciprocalMultiedge");
                 } else
@@ -273,6 +296,27 @@ template <class G> class Obj : public IObj {
                     throw std::logic_error("unknown op " + op);
             }
         });
+    }
+
+    // multigraph variant 1: counts are reported in units of 2^30
+    unsigned long long unit(unsigned long long v, std::string &bad) const {
+        if (!(I::kind == KindTag::Multi && variant))
+            return v;
+        if (v & ((1ull << 30) - 1))
+            bad += "a multiplicity-weighted count is not a multiple of the unit; ";
+        return v >> 30;
+    }
+    json unitVec(const std::vector<size_t> &v, std::string &bad) const {
+        json a = json::array();
+        for (auto x : v)
+            a.push_back(unit(x, bad));
+        return a;
+    }
+    json unitMat(const std::vector<std::vector<size_t>> &m, std::string &bad) const {
+        json a = json::array();
+        for (auto &row : m)
+            a.push_back(unitVec(row, bad));
+        return a;
     }
 
     // neighbour multiset of every vertex; entries >= n are reported
@@ -407,8 +451,8 @@ template <class G> class Obj : public IObj {
             if (ods.size() != n || ids.size() != n)
                 bad += "degree vector size; ";
             for (VertexIndex v = 0; v < n; ++v) {
-                od.push_back(g.getOutDegree(v));
-                id.push_back(g.getInDegree(v));
+                od.push_back(unit(g.getOutDegree(v), bad));
+                id.push_back(unit(g.getInDegree(v), bad));
                 if (v < ods.size() && ods[v] != g.getOutDegree(v))
                     bad += "getOutDegrees != getOutDegree; ";
                 if (v < ids.size() && ids[v] != g.getInDegree(v))
@@ -416,37 +460,37 @@ template <class G> class Obj : public IObj {
             }
             o["outdeg"] = od;
             o["indeg"] = id;
-            o["mat"] = json(g.getAdjacencyMatrix());
+            o["mat"] = unitMat(g.getAdjacencyMatrix(), bad);
         } else {
             json d2 = json::array(), d1 = json::array();
             auto v2 = g.getDegrees(), v1 = g.getDegrees(false);
             if (v2.size() != n || v1.size() != n)
                 bad += "degree vector size; ";
             for (VertexIndex v = 0; v < n; ++v) {
-                d2.push_back(g.getDegree(v));
-                d1.push_back(g.getDegree(v, false));
+                d2.push_back(unit(g.getDegree(v), bad));
+                d1.push_back(unit(g.getDegree(v, false), bad));
                 if (v < v2.size() && (v2[v] != g.getDegree(v, true) || v1[v] != g.getDegree(v, false)))
                     bad += "getDegrees != getDegree; ";
             }
             o["deg2"] = d2;
             o["deg1"] = d1;
-            o["mat"] = json(g.getAdjacencyMatrix());
-            o["mat1"] = json(g.getAdjacencyMatrix(false));
+            o["mat"] = unitMat(g.getAdjacencyMatrix(), bad);
+            o["mat1"] = unitMat(g.getAdjacencyMatrix(false), bad);
             // getNeighbours is the same list as getOutNeighbours
             if constexpr (I::kind == KindTag::Labeled)
                 for (VertexIndex v = 0; v < n; ++v)
-                    if (&g.getNeighbours(v) != &g.getOutNeighbours(v))
+                    if (g.getNeighbours(v) != g.getOutNeighbours(v))
                         bad += "getNeighbours != getOutNeighbours; ";
         }
         if (n == 0 && !o["mat"].is_array())
             o["mat"] = json::array();
 
         if constexpr (I::kind == KindTag::Multi) {
-            o["tot"] = g.getTotalEdgeNumber();
+            o["tot"] = unit(g.getTotalEdgeNumber(), bad);
             json mu = zeroMat(n);
             for (VertexIndex i = 0; i < n; ++i)
                 for (VertexIndex j = 0; j < n; ++j)
-                    mu[i][j] = Lab<G>::dec(g.getEdgeMultiplicity(i, j));
+                    mu[i][j] = Lab<G>::dec(g.getEdgeMultiplicity(i, j), variant);
             o["mult"] = mu;
         } else if constexpr (I::kind == KindTag::Weighted) {
             long double t = g.getTotalWeight();
@@ -459,7 +503,13 @@ template <class G> class Obj : public IObj {
                     sum += (long double)g.getEdgeWeight(e.first, e.second);
                     abstractSum += Lab<G>::dec(g.getEdgeWeight(e.first, e.second), variant);
                 }
-                if (std::fabs((double)(t - sum)) > 1e-6) {
+                // accumulated rounding error scales with the largest weight the total ever held
+                long double tol = 1e-6L;
+                for (auto e : g.edges())
+                    tol = std::max(tol, 1e-9L * std::fabs((long double)g.getEdgeWeight(e.first, e.second)));
+                if (sawHuge)
+                    tol = std::max(tol, 1e12L);
+                if (std::fabs((double)(t - sum)) > (double)tol) {
                     bad += "total weight differs from the sum of the edge weights beyond rounding error; ";
                     o["tot"] = (double)t;
                 } else
@@ -522,7 +572,7 @@ template <class G> class Obj : public IObj {
         e["lab"] = lab;
         e["en"] = g.getEdgeNumber();
         if constexpr (I::kind == KindTag::Multi)
-            e["tot"] = g.getTotalEdgeNumber();
+            e["tot"] = unit(g.getTotalEdgeNumber(), bad);
         else if constexpr (I::kind == KindTag::Weighted) {
             if (variant) {
                 long long abstractSum = 0;
